@@ -164,6 +164,7 @@ def c02_probe(detector, where: str = "begin") -> None:
             (float(rp.time), float(rp.time_step), float(rp.absolute_time), int(rp.pipeline_count),
              bool(rp.is_first_readout), bool(rp.is_last_readout), int(rp.num_steps)),
             c02_state(detector),
+            id(detector),  # which detector object ran (Calibration evaluates several processors, possibly interleaved)
         )
     )
 
@@ -396,6 +397,13 @@ def c03_apply(detector, ops) -> None:
             c = getattr(detector, b)
             if c._array is not None and b != "charge":
                 c.array = np.array(c._array, copy=True)
+        elif kind == "zero":  # ["zero", bucket, dtype]  every entry set to exactly 0 (charge: emptied)
+            b = op[1]
+            if b == "charge":
+                detector.charge.empty()
+            else:
+                c = getattr(detector, b)
+                c.array = np.zeros((rows, cols), dtype=c._array.dtype if c._array is not None else np.dtype(op[2]))
         elif kind == "clusters":  # ["clusters", "add_charge"|"dataframe", [[number, row, col] …]]
             _c03_clusters(detector, op[2], op[1])
         elif kind == "cl_scale":  # ["cl_scale", k]  every cluster's number × k, through set_frame_values
